@@ -83,6 +83,19 @@ CHECKS = {
         "Trusts vlib/ratelaw.py, vlib/si.py, vlib/build_model.py. Requested sample times are kept mid-step so "
         "that unit rounding cannot move a sampling decision; Gillespie sample counts that differ under unit "
         "rounding of requested times are skipped and counted."),
+    "C15": (
+        "bounded-exhaustive enumeration (512 grids) + Hypothesis; reference geometry; 4-way neighbour "
+        "agreement; grid-vs-graph differential",
+        "Exploration, exhaustive on all grids with w,h,d in 1..4 x 8 boundary combinations: index/coordinate "
+        "bijection in five position forms, rejection of every out-of-grid index in [-2n,3n] and of coordinate "
+        "triples with one component out of range, get_neighbors / are_neighbors for every ordered pair "
+        "against reference geometry, and the native engine's neighbour multiset revealed by one "
+        "pure-diffusion Euler step from a one-hot state at every cell. Hypothesis adds larger shapes, the "
+        "kinetics functions' neighbour relation, and grid_to_graph structure plus Euler-trajectory and "
+        "rate-law equality between a grid system and its graph.",
+        "Trusts the reference geometry in props/c15.py and vlib/ratelaw.py. get_neighbors is compared as a "
+        "set of distinct cells (multiplicities are checked physically through engine and kinetics). "
+        "Python kinetics on the graph only without periodic axes of length 2 (stated restriction)."),
 }
 
 NOT_BUILT = "check not built yet in this working session (planned; DESIGN.md section 4)"
